@@ -113,7 +113,7 @@ class OptimResults(object):
         soln_dict = {}
         soln_dict['x'] = self.x.tolist() if self.x is not None else None
         soln_dict['resid'] = self.resid.tolist() if self.resid is not None else None
-        soln_dict['obj'] = float(self.obj)
+        soln_dict['obj'] = float(self.obj) if self.obj is not None else None
         soln_dict['jacobian'] = self.jacobian.tolist() if self.jacobian is not None else None
         soln_dict['nf'] = int(self.nf)
         soln_dict['nx'] = int(self.nx)
@@ -121,7 +121,7 @@ class OptimResults(object):
         soln_dict['flag'] = int(self.flag)
         soln_dict['msg'] = str(self.msg)
         soln_dict['diagnostic_info'] = self.diagnostic_info.to_dict() if self.diagnostic_info is not None else None
-        soln_dict['xmin_eval_num'] = int(self.xmin_eval_num)
+        soln_dict['xmin_eval_num'] = int(self.xmin_eval_num) if self.xmin_eval_num is not None else None
         soln_dict['jacmin_eval_nums'] = self.jacmin_eval_nums.tolist() if self.jacmin_eval_nums is not None else None
         if replace_nan:
             return replace_nan_with_none(soln_dict)
